@@ -28,7 +28,8 @@ DoRegister(reg, o, i, force, weak) ==
     ELSE IF Unregistrable(o) \/ i \in BadIds THEN [reg |-> reg, out |-> "error"]      \* refused, whatever the flags, without effect
     ELSE IF i = "daemon" /\ ~force THEN [reg |-> reg, out |-> "DaemonError"]     \* the reserved id is always taken
     ELSE IF ~force /\ (i \in DOMAIN reg \/ Registered(reg, o)) THEN [reg |-> reg, out |-> "DaemonError"]
-    ELSE [reg |-> Put(Del(reg, {j \in DOMAIN reg : reg[j].obj = o}), i, o, weak), out |-> "ok"]
+    \* (a forced registration of an object that is registered under another id already adds the second id: both reach it)
+    ELSE [reg |-> Put(IF force THEN reg ELSE Del(reg, {j \in DOMAIN reg : reg[j].obj = o}), i, o, weak), out |-> "ok"]
 DoUnregisterId(reg, i) == Del(reg, {i})
 DoUnregisterObj(reg, o) == Del(reg, {j \in DOMAIN reg : reg[j].obj = o})
 DoGc(reg, o) == Del(reg, {j \in DOMAIN reg : reg[j].obj = o /\ reg[j].weak})
